@@ -10,6 +10,9 @@ Extracted (C10):
                    through a pointer is a shape error
   * threadSafeOn   the assignments in turnOnThreadSafeNewDeleteOverloads   (pointer <- function)
   * defaultOn / off the assignments of turnOnDefaultNotThreadSafeNewDeleteOverloads / turnOffNewDeleteOverloads
+  * code.fail      MemoryLeakWarningReporter::fail as a statement list: getCurrent / releaseBeforeFailing / failWith(.., terminator
+                   without exceptions), and the split form addFailure(FailFailure(..)) ... exitCurrentTest() in whatever order
+                   the source has them (the ORDER is judged by the obligations, not here)
   * funcs          for every function assigned by one of the three switches: does its FIRST statement construct the
                    MemLeakScopedMutex, and which detector operations it calls (in order)
 Shape checks (TranslateError): MemLeakScopedMutex holds one ScopedMutexLock built from the global detector's mutex;
@@ -305,12 +308,21 @@ def _scoped_lock_code(src, by_name):
             fail.append(".failWith")
             if k != len(sts) - 1:
                 raise TranslateError("MemoryLeakWarningReporter::fail: statements after failWith: %r" % sts[k + 1:])
+        elif re.fullmatch(r"\w+->addFailure\(FailFailure\(.*\)\)", st):
+            # records the failure and returns (TestResult::addFailure -> TestOutput::printFailure: a callback that may
+            # allocate through operator new); whether it runs before or after the release is decided by the obligations
+            fail.append(".addFailure")
+        elif re.fullmatch(r"UtestShell::getCurrentTestTerminatorWithoutExceptions\(\)\.exitCurrentTest\(\)", st):
+            fail.append(".exitCurrentTest")
+            if k != len(sts) - 1:
+                raise TranslateError("MemoryLeakWarningReporter::fail: statements after exitCurrentTest: %r" % sts[k + 1:])
         elif FLAG in st or "Mutex" in st or "Lock" in st or "lock" in st:
             raise TranslateError("MemoryLeakWarningReporter::fail: statement on the lock not understood: " + st)
         else:
             raise TranslateError("MemoryLeakWarningReporter::fail: statement not understood: " + st)
-    if not fail or fail[-1] != ".failWith":
-        raise TranslateError("MemoryLeakWarningReporter::fail does not end in failWith(.., getCurrentTestTerminatorWithoutExceptions()): %r" % sts)
+    if not fail or fail[-1] not in (".failWith", ".exitCurrentTest") or (fail[-1] == ".exitCurrentTest" and ".addFailure" not in fail):
+        raise TranslateError("MemoryLeakWarningReporter::fail does not end in failWith(.., getCurrentTestTerminatorWithoutExceptions()) "
+                             "(or addFailure(..) ... getCurrentTestTerminatorWithoutExceptions().exitCurrentTest()): %r" % sts)
     # the flag is written nowhere else in the translation unit
     outside = src.replace(cls, "")
     uses = re.findall(r"\b%s\b" % FLAG, outside)
